@@ -117,6 +117,12 @@ structure Facts where
   /-- `StoreSector`'s rollback is `… WHERE id=$1 AND sector_id=$2` and only decrements the usage when
   a row was affected (false: unconditional) -/
   rollbackChecked : Bool := false
+  /-- `VolumeManager.Sync` is serialised and clears a volume's dirty flag BEFORE the fsync (false: fsync,
+  then `delete(vm.changedVolumes, id)`, not serialised) -/
+  syncSerial : Bool := false
+  /-- `ResizeVolume` reads the volume's size after it has set the `resizing` status, under the manager's
+  mutex (false: before the status check, so a second resize can start from a stale total) -/
+  resizeStatLocked : Bool := false
 deriving DecidableEq, Repr
 
 /-- the tree as it is now (after fix 039186a) -/
@@ -125,6 +131,8 @@ def Facts.code : Facts := { rej1 := .v1const, rej2 := .v2const }
 def Facts.beforeFix : Facts := { rej1 := .v1const, rej2 := .v1const }
 /-- the tree with the proposed repairs of the cache aliasing and of the rollback double decrement -/
 def Facts.fixed : Facts := { rej1 := .v1const, rej2 := .v2const, cacheCopies := true, rollbackChecked := true }
+/-- … plus the proposed repairs of `Sync` and `ResizeVolume` -/
+def Facts.fixed2 : Facts := { Facts.fixed with syncSerial := true, resizeStatLocked := true }
 
 def Facts.match1 (f : Facts) (s : S1) : Bool :=
   match f.rej1 with
@@ -148,7 +156,9 @@ structure State where
   heap      : List Content := []       -- sector buffers (index = buffer identity / pointer)
   cache     : List (SectorId × BufId) := []   -- LRU, most recent first; values are POINTERS
   cacheSize : Nat := 0
-  changed   : List Nat := []           -- changedVolumes
+  changed   : List Nat := []           -- changedVolumes (per-volume dirty flag)
+  syncer    : Option (List Nat) := none  -- a running Sync(): the volumes it still has to handle
+  inflight  : List Nat := []           -- volumes a running Sync() is in the middle of (between its two phases)
   pending   : List Pending := []       -- writers inside StoreSector's fn
   -- ghost
   fresh    : List SectorId := []       -- acknowledged to a writer since the last tick / crash and still located
@@ -701,12 +711,68 @@ def crash (s : State) (lost : List (Nat × Nat)) : State × Res :=
   if !lost.all (fun p => nonDurable s.vols p.1 p.2) then (s, .badOracle "durable content cannot vanish")
   else
     ({ s with vols := s.vols.map (fun v => { v with slots := crashSlots v.id lost v.slots 0, available := true })
-              cache := [], changed := [], pending := [], fresh := [], unsynced := [] }, .ok)
+              cache := [], changed := [], syncer := none, inflight := [], pending := [], fresh := [], unsynced := [] }, .ok)
 
 /-- `VolumeManager.Close` (fsync everything) then restart -/
 def restart (s : State) : State × Res :=
   if !s.pending.isEmpty then (s, .badOracle "writers in flight") else
   crash { s with vols := s.vols.map fun v => { v with slots := v.slots.map fun sl => { sl with durable := true } } } []
+
+/-! ### Sync in two phases
+
+`VolumeManager.Sync` collects the dirty volumes and then, per volume, calls `vol.Sync()` (fsync) and
+updates `changedVolumes`. Other goroutines (uploads into the same volume) run between the phases.
+Current code: fsync, then `delete(changedVolumes, id)`. Repaired shape (`syncSerial`): Sync calls are
+serialised, the flag is cleared first, then the fsync. `inflight` = volumes between the two phases. -/
+
+/-- some slot holding `r` is not fsynced -/
+def hasDirty (vs : List Volume) (r : SectorId) : Bool :=
+  vs.any fun v => v.slots.any fun sl => sl.sec == some r && !sl.durable
+
+def syncBegin (s : State) : State × Res :=
+  match s.syncer with
+  | some _ => (s, .badOracle "a Sync is running")
+  | none => ({ s with syncer := some s.changed }, .ok)
+
+/-- `vol.Sync()` of a running Sync returned -/
+def syncFsync (f : Facts) (s : State) (v : Nat) : State × Res :=
+  match s.syncer with
+  | none => (s, .badOracle "no Sync running")
+  | some rem =>
+    let vs := syncVol v s.vols
+    if f.syncSerial then
+      -- second phase: the flag was cleared before
+      if s.inflight.contains v then
+        ({ s with vols := vs, inflight := s.inflight.filter (fun x => x != v), syncer := some (rem.filter (fun x => x != v))
+                  unsynced := s.unsynced.filter (hasDirty vs) }, .ok)
+      else (s, .badOracle "flag not cleared yet")
+    else
+      -- first phase
+      if rem.contains v && !s.inflight.contains v then
+        ({ s with vols := vs, inflight := v :: s.inflight, unsynced := s.unsynced.filter (hasDirty vs) }, .ok)
+      else (s, .badOracle "not to be synced")
+
+/-- the dirty flag of `v` is cleared by a running Sync -/
+def syncClear (f : Facts) (s : State) (v : Nat) : State × Res :=
+  match s.syncer with
+  | none => (s, .badOracle "no Sync running")
+  | some rem =>
+    if f.syncSerial then
+      -- first phase
+      if rem.contains v && !s.inflight.contains v then
+        ({ s with changed := s.changed.filter (fun x => x != v), inflight := v :: s.inflight }, .ok)
+      else (s, .badOracle "not to be synced")
+    else
+      -- second phase: `delete(vm.changedVolumes, id)` after the fsync returned
+      if s.inflight.contains v then
+        ({ s with changed := s.changed.filter (fun x => x != v), inflight := s.inflight.filter (fun x => x != v)
+                  syncer := some (rem.filter (fun x => x != v)) }, .ok)
+      else (s, .badOracle "fsync not done yet")
+
+def syncEnd (s : State) : State × Res :=
+  match s.syncer with
+  | some [] => if s.inflight.isEmpty then ({ s with syncer := none }, .ok) else (s, .badOracle "Sync not finished")
+  | _ => (s, .badOracle "Sync not finished")
 
 /-! ### VolumeManager orchestration -/
 
@@ -747,6 +813,38 @@ def vmRemove (s : State) (v : Nat) (force : Bool) (moves : List Move) : State ×
       else removeVolume s2 v force
     | other => (s2, other)
 
+/-- `resizeBatchSize` (default build) -/
+def resizeBatch : Nat := 64
+
+def truncSlots (cut n : Nat) : List Slot → Nat → List Slot
+  | [], _ => []
+  | x :: xs, k =>
+    (if k ≥ cut then { x with content := if k < n then .zero else .garbage, durable := true } else x) :: truncSlots cut n xs (k + 1)
+
+/-- the data file is truncated to `cut` sectors and then extended (with zeroes) to `n` sectors -/
+def truncFile (v cut n : Nat) (vs : List Volume) : List Volume :=
+  updVol v (fun x => { x with slots := truncSlots cut n x.slots 0 }) vs
+
+/-- `ResizeVolume(v, n)` whose goroutine works with `cur` as the volume's total: the value
+`vm.vs.Volume(id)` returned BEFORE the status check. `growVolume(cur, n)` truncates the data file to
+`min (cur + resizeBatch) n` sectors in its first batch (`volume.Resize`), `GrowVolume` is a no-op while
+the target is below the real total; `shrinkVolume(cur, n)` ends in `ShrinkVolume(n)`, which panics when
+`n` exceeds the real total. With `resizeStatLocked` the size is read under the status guard: `cur` is
+the real total. -/
+def vmResizeStale (f : Facts) (s : State) (cur v n : Nat) (moves : List Move) : State × Res :=
+  match findVol v s.vols with
+  | none => (s, .volumeNotFound)
+  | some vol =>
+    if f.resizeStatLocked || cur == vol.total then vmResize s v n moves
+    else if cur < n then
+      let cut := min (cur + resizeBatch) n
+      let s1 := if cut < vol.total then { s with vols := truncFile v cut n s.vols } else s
+      if vol.total < n then grow s1 v n else (s1, .ok)
+    else if cur > n then
+      if n > vol.total then (s, .panic "maxSectors must be less than totalSectors")
+      else vmResize s v n moves
+    else (s, .ok)
+
 /-! ### operations and histories -/
 
 inductive Op where
@@ -783,6 +881,11 @@ inductive Op where
   | vmAddVolume (id n : Nat)
   | vmResize (v n : Nat) (moves : List Move)
   | vmRemove (v : Nat) (force : Bool) (moves : List Move)
+  | syncBegin
+  | syncFsync (v : Nat)
+  | syncClear (v : Nat)
+  | syncEnd
+  | vmResizeStale (cur v n : Nat) (moves : List Move)
 deriving Repr
 
 def step (f : Facts) (s : State) : Op → State × Res
@@ -819,6 +922,11 @@ def step (f : Facts) (s : State) : Op → State × Res
   | .vmAddVolume id n => vmAddVolume s id n
   | .vmResize v n moves => vmResize s v n moves
   | .vmRemove v force moves => vmRemove s v force moves
+  | .syncBegin => syncBegin s
+  | .syncFsync v => syncFsync f s v
+  | .syncClear v => syncClear f s v
+  | .syncEnd => syncEnd s
+  | .vmResizeStale cur v n moves => vmResizeStale f s cur v n moves
 
 def run (f : Facts) (s : State) (ops : List Op) : State := ops.foldl (fun s op => (step f s op).1) s
 
